@@ -628,6 +628,11 @@ def dec_shapes(tier, seed):
     for enc in ("Big5", "EUC-KR", "Shift_JIS", "EUC-JP", "GBK", "gb18030"):
         shards = lead_shards(enc, 16)
         pick = [shards[0], shards[-1]] + rnd.sample(shards[1:-1], 2) if q else shards
+        if q and enc == "Big5":
+            sp = [s for s in shards if s[0] <= 0x88 <= s[1]]      # leads of the two-code-point sequences and astral characters
+            pick += [s for s in sp if s not in pick]
+        if q and enc in ("GBK", "gb18030") and shards[1] not in pick:
+            pick.append(shards[1])                                 # leads 0x81..: four-byte forms
         out.append((enc, 3, pick, [0]))
     out.append(("ISO-2022-JP", 3, [(0, 0x1A), (0x1B, 0x1B), (0x1C, 0xFF)], [0]))
     out.append(("ISO-2022-JP", 2 if q else 3, [(0, 255)], [4, 5, 8, 13] if q else list(range(1, 15))))
@@ -964,7 +969,8 @@ def c20_jobs(tier, seed):
         jl.append(J("se_h_c20_pred", {0: i, 1: 1}, label="%s: U+0000-U+007F encode to the same single bytes" % enc, need=[], expect_fail_if_reached={71: [43]}, weight=2))
         # 2: two bytes decode to two units
         sb = enc in single
-        jl.append(J("se_h_c20_pred", {0: i, 1: 2}, label="%s: every 2-byte string decodes to 2 UTF-16 units (is_single_byte=%s)" % (enc, sb), need=[9999],
+        jl.append(J("se_h_c20_pred", {0: i, 1: 2, 7: 5 if enc == "ISO-2022-JP" else 0},
+                    label="%s: every 2-byte string%s decodes to as many UTF-16 units as bytes (is_single_byte=%s)" % (enc, " after ESC $ B" if enc == "ISO-2022-JP" else "", sb), need=[9999],
                     expect_fail_if_reached={71: [45]}, weight=20, time_budget=900))
         # 3: mappable characters encode to one byte
         if sb:
@@ -997,7 +1003,7 @@ PROPS["C20"] = dict(
                  "the native build - so a flag flipped in either direction is caught (flipped to true: the universal statement is refuted; flipped to false: "
                  "no witness exists). output_encoding() idempotence, its use by new_encoder() and encode(), and ==/name() identity over "
                  "the 40 instances are checked concretely."),
-    bounds=lambda tier: ("all 128 ASCII bytes/characters; all 65,536 two-byte strings per encoding; encode statements over %s; ∃-side witnesses searched in one 64-wide window per encoding"
+    bounds=lambda tier: ("all 128 ASCII bytes/characters; all 65,536 two-byte strings per encoding (ISO-2022-JP: after the three-byte escape ESC $ B, as the property's quantifier prescribes); encode statements over %s; ∃-side witnesses searched in one 64-wide window per encoding"
                          % ("U+0000..U+07FF and U+2000..U+27FF for the single-byte encodings, the BMP and the last 4096 code points for the UTF-8 output encodings" if tier == "quick"
                             else "the whole BMP for the single-byte encodings, planes 0, 1 and 16 for the UTF-8 output encodings")),
     outside=["byte strings longer than 2 (longer strings of a single-byte decoder are covered by C01/C02)", "Hash (derived from the same pointer identity as ==; not executed)"],
@@ -1023,7 +1029,7 @@ def c17_jobs(tier, seed):
         sel = base
         if q:
             # quick: the windows that contain hanzi / kanji / hangul / hanja (where the alternative tables are used) + a seeded sample
-            hot = [j for j in base if j["params"][3] == 0 and j["params"][4] in (0x3000, 0x4E00, 0x5000, 0x9C00, 0xAC00, 0xF800, 0xFC00)]
+            hot = [j for j in base if j["params"][3] == 0 and j["params"][4] in (0x0000, 0x2000, 0x2400, 0x3000, 0x4E00, 0x5000, 0x9C00, 0xAC00, 0xF800, 0xFC00)]
             rest = [j for j in base if j not in hot]
             sel = hot + rnd.sample(rest, min(len(rest), 40))
         for j in sel:
@@ -1043,9 +1049,271 @@ PROPS["C17"] = dict(
                  "modules against the same transcribed reference encoder as the default build in C03: every build is decided equal to the same reference on the same windows, hence "
                  "the builds are equal to one another there. z3 decides every branch and assertion per path."),
     bounds=lambda tier: ("the seven CJK encoders (Big5, EUC-JP, EUC-KR, GBK, gb18030, Shift_JIS, ISO-2022-JP) x the character windows of C03's %s tier%s, both alternative feature sets"
-                         % (tier, " restricted to the hanzi/kanji/hangul/hanja/compatibility windows plus 40 seed-chosen jobs per feature set" if tier == "quick" else "")),
+                         % (tier, " restricted to the Latin/symbol, hanzi/kanji/hangul/hanja and compatibility windows plus 40 seed-chosen jobs per feature set" if tier == "quick" else "")),
     outside=["simd-accel (+std) on a nightly compiler: its kernels are portable_simd vector code, for which llsym has no semantics - not reachable by this technique in this sandbox",
              "SIMD-validator path vs built-in scalar path of UTF-8 validation: only the scalar side is executed (C14); simdutf8's kernels are x86 intrinsics",
              "decoders and mem functions: no code of theirs is cfg-switched by the legacy-encode features"],
     assumptions=ENGINE_ASSUMPTIONS + ["equality between builds is established through equality of each build with the same reference encoder on the same inputs"],
+)
+
+
+# ----------------------------------------------------------------------------------------------- C05 / C06 (C08 harness with flags), C18, C19
+def c05_jobs(tier, seed):
+    """decoder shapes of C08 with the well-formedness flag, &mut str sinks pre-filled with valid multi-byte text at three phases,
+    String sinks with existing content; capacities minimum..minimum+3 so that `written` lands at every offset inside an old character"""
+    jl = []
+    q = tier == "quick"
+    SINKS = ("utf16", "utf8", "str", "String")
+    k = 0
+    for (enc, nmax, ranges, pres) in dec_shapes(tier, seed):
+        for pre in pres:
+            for (lo, hi) in ranges:
+                for (s, r) in [(2, 1), (2, 0), (3, 1), (0, 0), (1, 1)] if not q else [(2, k % 2), (3, (k + 1) % 2), (k % 2, k % 2)]:
+                    mn = 2 if s == 0 else 4
+                    for cap in ((mn + k % 4,) if q else (mn, mn + 1, mn + 2, mn + 3)):
+                        for phase in ((1 + k % 3,) if (q or s != 2) else (1, 2, 3)):
+                            jl.append(J("se_h_c08_dec", {0: E[enc], 1: 0 if lo == 0 else 1, 2: min(nmax, 3), 3: s, 4: r, 5: lo, 6: hi, 7: pre, 8: 0, 9: cap, 11: 1, 12: 1,
+                                                         13: 3, 14: phase if s == 2 else 0},
+                                        label="decode %s n<=%d first=%02X..%02X prefix=%d sink=%s repl=%d cap=%d str-prefill phase=%d" % (enc, min(nmax, 3), lo, hi, pre, SINKS[s], r, cap, phase),
+                                        need=[9999], weight=30, time_budget=900 if q else 3000))
+                k += 1
+    # large &mut str destinations: the bytes far beyond `written` (beyond the 16-byte stride window) must stay valid too
+    for enc in (("windows-1252", "UTF-8", "Big5", "ISO-2022-JP", "UTF-16LE") if q else [s[0] for s in dec_shapes(tier, seed) if s[3] == [0]]):
+        for r in (0, 1):
+            for cap in ((30, 37) if q else (24, 30, 36, 37, 44)):
+                for phase in (1, 2, 3):
+                    lo, hi = (0, 0x7F) if enc != "UTF-16LE" else (0, 0xFF)
+                    jl.append(J("se_h_c08_dec", {0: E[enc], 1: 0, 2: 2, 3: 2, 4: r, 5: lo, 6: hi, 7: 0, 8: 0, 9: cap, 11: 0, 12: 0, 13: 3, 14: phase},
+                                label="decode %s n<=2 (ASCII first byte) into a %d-byte &mut str pre-filled at phase %d, repl=%d" % (enc, cap, phase - 1, r), need=[9999], weight=10))
+    # mem::convert_*_to_str* leave the whole &mut str valid: asserted in the C15 harness (ids 6) - run its str functions here too
+    for f in (5, 7):
+        for pre in (0, 15, 16):
+            jl.append(J("se_h_c15_from8", {0: f, 1: 3, 2: pre, 3: 0}, label="%s: whole &mut str valid afterwards, %d ASCII + 3 symbolic bytes" % (F8[f], pre), need=[9999], weight=20))
+    for f in (1, 3):
+        for pre in (0, 15, 16):
+            jl.append(J("se_h_c15_from16", {0: f, 1: 3, 2: pre, 3: 0}, label="%s: whole &mut str valid afterwards, %d ASCII + 3 symbolic units" % (F16[f], pre), need=[9999], weight=20))
+    return jl
+
+
+PROPS["C05"] = dict(
+    cfgs=["verif_c08", "verif_c15"], level="model_checking", jobs=c05_jobs, need_global=[30],
+    explanation=("The documented caller loop around the real Decoder is executed symbolically (streams of N symbolic bytes, one symbolic cut, optional empty final call) with, "
+                 "after EVERY call: the units reported as written are well-formed UTF-8 / UTF-16 on their own (whole characters only); for decode_to_str* the destination &mut str, "
+                 "pre-filled with valid multi-byte text (3-byte characters at phase 0, 1 or 2, so that `written` lands inside an old character), is valid UTF-8 in its entirety; "
+                 "for decode_to_string* the String (which starts with existing non-ASCII content) is valid, keeps its content and capacity. mem::convert_utf16_to_str(_partial) and "
+                 "convert_latin1_to_str(_partial) are executed with the C15 harness, which asserts whole-buffer validity. Validity is a naive reference predicate; z3 decides every "
+                 "branch and assertion."),
+    bounds=lambda tier: ("decoder streams of N<=3 symbolic bytes over the shapes of C08 (all encoding families, ISO-2022-JP escape prefixes), one symbolic cut + optional empty final call, "
+                         "capacities minimum..minimum+3, sinks &mut str (pre-fill phases 0..2), String, and one slice sink; mem str functions: 0/15/16 ASCII + 3 symbolic units"
+                         + (" (quick: one capacity, phase and sink/mode combination per shard, rotating)" if tier == "quick" else "")),
+    outside=["simd-accel build (listed in the property's quantifier; vector IR is not executable by llsym)", "the finished-decoder panic path (the path ends at the panic entry; the String is not "
+             "inspected afterwards)", "Cow results of the one-shot API (C11)"],
+    assumptions=ENGINE_ASSUMPTIONS,
+)
+
+
+def c06_jobs(tier, seed):
+    """C08 shapes at the documented minimum with guard units beyond the capacity and pre-existing String / Vec content; plus the mem
+    functions of C15 (guards beyond the destination) and a subset on the IR built with debug assertions and overflow checks"""
+    jl = []
+    q = tier == "quick"
+    for j in c08_jobs(tier, seed):
+        k = dict(j)
+        k["params"] = dict(j["params"])
+        k["params"][13] = 2
+        k["label"] = "[guards, existing String/Vec content] " + j["label"]
+        jl.append(k)
+    for j in c15_jobs(tier, seed):
+        if q and j["params"][2] not in (0, 16):
+            continue
+        jl.append(dict(j))
+    # debug-assertions + overflow-checks build: crate debug_assert!s and core's unsafe-precondition checks become reachable panics
+    rnd = random.Random(seed)
+    base = [j for j in jl if j["harness"] in ("se_h_c08_dec", "se_h_c08_enc") and ENC_NAMES[j["params"][0]] in
+            ("windows-1252", "UTF-8", "UTF-16LE", "Big5", "gb18030", "ISO-2022-JP", "Shift_JIS", "EUC-KR", "x-user-defined")]
+    for j in (rnd.sample(base, min(len(base), 40)) if q else base):
+        k = dict(j)
+        k["ir"] = "checked"
+        k["label"] = "[debug-assertions build] " + j["label"]
+        jl.append(k)
+    for j in c15_jobs(tier, seed):
+        if j["params"][2] in (0, 16) and (not q or j["params"][0] % 2 == 0):
+            k = dict(j)
+            k["ir"] = "checked"
+            k["label"] = "[debug-assertions build] " + j["label"]
+            jl.append(k)
+    return jl
+
+
+PROPS["C06"] = dict(
+    cfgs=["verif_c08", "verif_c15"], level="model_checking", jobs=c06_jobs, need_global=[30, 36],
+    irs={"release": ("release", "std"), "checked": ("checked", "std")},
+    explanation=("Memory safety and the read/written contract are built-in checks of the executor on EVERY path of EVERY harness of every property: each load, store, memcpy and memset "
+                 "must lie inside a live object (symbolic offsets are decided by z3), no write to a constant, no 'unreachable', every llvm.assume implied by the path condition, no "
+                 "branch on uninitialised data; and every driver asserts read <= src.len(), written <= dst.len(), InputEmpty => everything consumed. This check adds the geometry the "
+                 "others do not vary: the caller loops of C08 at the documented minimum capacity with guard units beyond the offered capacity (must stay untouched), String / Vec sinks "
+                 "that start with existing content (content and capacity must survive), the mem functions with a guard unit beyond the destination; any panic on a path that respects "
+                 "the documented minimum sizes is a violation. A subset is executed a second time on IR built with debug-assertions and overflow-checks, where the crate's "
+                 "debug_assert!s and core's unsafe-precondition checks (get_unchecked, from_u32_unchecked, ...) are reachable panics. This check rediscovered the defects repaired in "
+                 "5708c4c and 575fbfd (known_findings.json)."),
+    bounds=lambda tier: ("the call histories of C08 (streams of N<=3..4 symbolic bytes / texts with one symbolic character, symbolic cuts, minimum capacity%s) and the mem shapes of C15%s; "
+                         "both IR flavours" % ((", quick tier", " with 0 and 16 filler units; 40 seed-chosen histories on the debug-assertions build") if tier == "quick" else (" and minimum+1", ""))),
+    outside=["simd-accel build", "source/destination lengths beyond the bounds ('large' buffers, lengths around 100)", "start alignment is varied only through the filler offsets of C14/C16 and the "
+             "stack/heap placement of the harness buffers: ascii.rs has no alignment-dependent path in the default build"],
+    assumptions=ENGINE_ASSUMPTIONS + ["documented minimum sizes: decoding 4 bytes (UTF-8) / 2 units (UTF-16); encoding 4 bytes, 14 with replacement; mem functions: the sizes in their documentation"],
+)
+
+
+def c18_jobs(tier, seed):
+    jl = []
+    q = tier == "quick"
+    SINKS = ("utf16", "utf8", "str")
+    k = 0
+    for (enc, nmax, ranges, pres) in dec_shapes(tier, seed):
+        n1 = min(nmax, 2 if (q and enc in ("UTF-8", "windows-1252", "windows-874", "UTF-16LE", "UTF-16BE", "ISO-2022-JP")) else 3)
+        for pre in pres:
+            for (lo, hi) in ranges:
+                for (s, r) in ([(k % 3, k % 2)] if q else [(s, r) for s in range(3) for r in (0, 1)]):
+                    mn = 2 if s == 0 else 4
+                    jl.append(J("se_h_c18_dec", {0: E[enc], 1: 0 if lo == 0 else 1, 2: n1, 3: s, 4: r, 5: lo, 6: hi, 7: pre, 8: 0 if k % 3 else 2, 9: mn + k % 2, 11: 1},
+                                label="decode %s n<=%d first=%02X..%02X prefix=%d sink=%s repl=%d cap=%d, twin symbolic pre-fills" % (enc, n1, lo, hi, pre, SINKS[s], r, mn + k % 2),
+                                need=[9999], weight=30, time_budget=900 if q else 3000))
+                k += 1
+    for i, (enc, base, lo, hi, b, a, pfx) in enumerate(enc_shapes(tier, seed)):
+        for repl in ((i % 2,) if q else (0, 1)):
+            jl.append(J("se_h_c18_enc", {0: E[enc], 1: i % 2, 2: repl, 3: base, 4: lo, 5: hi, 6: b, 7: a, 9: min(pfx, 3), 12: (14 if repl else 4) + i % 3},
+                        label="encode %s from %s repl=%d U+%04X..U+%04X nb=%d,%d, twin symbolic pre-fills" % (enc, ("utf8", "utf16")[i % 2], repl, base + lo, base + hi, b, a),
+                        need=[9999], weight=10, small_index_fork=64, time_budget=900 if q else 3000))
+    for f in range(6):
+        for pre in ((0, 15, 16) if q else (0, 1, 15, 16, 17, 31)):
+            jl.append(J("se_h_c18_mem", {0: f, 1: 2 if q else 3, 2: pre}, label="mem function %d: %d ASCII + symbolic units, twin symbolic pre-fills" % (f, pre), need=[9999], weight=10))
+    return jl
+
+
+PROPS["C18"] = dict(
+    cfgs=["verif_c18"], level="model_checking", jobs=c18_jobs, need_global=[30],
+    explanation=("Self-composition: each call history is executed on twin real converters whose destinations are pre-filled, before every call, with two independent sets of fresh "
+                 "SYMBOLIC units. All return values, the number of calls, had_errors and the written prefixes must be equal for every value of both fills - which is stronger than three "
+                 "fixed fill patterns: any unit of the written prefix that the call did not store, or any decision computed from old destination contents, makes the equality "
+                 "refutable. Decoder and encoder caller loops at small capacities and six mem conversions are covered. For the String / Vec sinks the spare capacity is uninitialised "
+                 "memory in the executor's memory model: a branch on it, or a unit exposed by set_len without having been stored, is flagged by the built-in checks in every run of "
+                 "C02 / C04 / C05 / C06 / C08 with those sinks."),
+    bounds=lambda tier: ("decoder streams of N<=3 symbolic bytes (quick: 2 for the encodings with many data paths), one symbolic cut, capacity minimum or minimum+1, slice and &mut str sinks; "
+                         "encoder texts with one symbolic character in a window; mem: 0/15/16 ASCII + 2 symbolic units (thorough: 3, six filler lengths)"),
+    outside=["simd-accel build", "histories longer than the bounds"],
+    assumptions=ENGINE_ASSUMPTIONS,
+)
+
+
+def c19_jobs(tier, seed):
+    jl = []
+    q = tier == "quick"
+    rnd = random.Random(seed)
+    kr = [(0, 3), (14, 18)] if q else [(0, 6), (7, 13), (14, 20), (28, 34)]
+    for (enc, nmax, ranges, pres) in dec_shapes(tier, seed):
+        cjk = enc in ("Big5", "EUC-KR", "Shift_JIS", "EUC-JP", "GBK", "gb18030")
+        pmax = 1 if (cjk or enc == "UTF-8") and q else 2
+        for pre in pres:
+            for (lo, hi) in ranges:
+                if q and cjk and lo == 0:
+                    continue
+                for bom in ((0, 2) if (lo == 0 or lo <= 0xEF <= hi) else (0,)):
+                    for (k0, k1) in (kr if not (q and cjk) else kr[:1]):
+                        jl.append(J("se_h_c19", {0: E[enc], 1: pmax if pre == 0 else 0, 2: 2, 3: k0, 4: k1, 5: lo, 6: hi, 7: pre, 8: bom, 9: 2},
+                                    label="%s state after prefix<=%d (first %02X..%02X, escape prefix %d), bom=%d; buffer = %d..%d ASCII + 2 symbolic + 0..2 ASCII" % (enc, pmax, lo, hi, pre, bom, k0, k1),
+                                    need=[9999], weight=30, time_budget=900 if q else 3000))
+    # query point right after a Malformed return (deferred outputs such as gb18030's pending ASCII byte)
+    for (enc, nmax, ranges, pres) in dec_shapes(tier, seed):
+        cjk = enc in ("Big5", "EUC-KR", "Shift_JIS", "EUC-JP", "GBK", "gb18030")
+        for pre in pres:
+            rs = list(ranges)
+            if q and enc in ("GBK", "gb18030"):
+                sh = lead_shards(enc, 16)
+                rs = [sh[1]] + [r for r in rs if r != sh[1]][:2]      # leads 0x81..: the four-byte forms
+            for (lo, hi) in rs:
+                n1 = 4 if enc in ("GBK", "gb18030", "UTF-16LE", "UTF-16BE") else 3
+                jl.append(J("se_h_c19_mid", {0: E[enc], 1: 1 if lo else 0, 2: n1, 5: lo, 6: hi, 7: pre, 8: 0},
+                            label="%s: query right after the first Malformed return, stream n<=%d first=%02X..%02X prefix=%d" % (enc, n1, lo, hi, pre), need=[9999], weight=30,
+                            time_budget=900 if q else 3000, **({"mem_gb": 10} if enc in ("gb18030", "GBK") else {})))
+    return jl
+
+
+PROPS["C19"] = dict(
+    cfgs=["verif_c19"], level="model_checking", jobs=c19_jobs, need_global=[60, 61, 62, 63, 64, 65, 66],
+    explanation=("A real decoder and three twins are brought into the same reachable state by a symbolic prefix (pushed with last=false; BOM modes off and sniffing; ISO-2022-JP also after "
+                 "concrete escape prefixes). latin1_byte_compatible_up_to is then called on a buffer of k ASCII bytes, a window of two symbolic bytes and up to two more ASCII bytes. "
+                 "None is only accepted if a twin's end-of-stream flush shows something pending, the decoder is still waiting for a BOM, the encoding in use is never compatible, or it "
+                 "is ISO-2022-JP; Some(n) requires the opposite and: decoding the first n bytes with a twin in the same state yields exactly n units equal to the byte values; if n is "
+                 "short of the buffer, byte n decoded on its own does not simply yield its own value (so n never stops inside a pass-through ASCII run, and for single-byte encodings "
+                 "byte n is the first that decodes to something else); the queried decoder's subsequent output equals an untouched twin's. A second harness asks the question right after the first call of the "
+                 "caller loop that returns Malformed (when deferred output such as gb18030's pending ASCII byte may be waiting) and checks Some(n) against what a lock-step twin then "
+                 "decodes. This check found the defect repaired in ebc9f92 (known_findings.json)."),
+    bounds=lambda tier: ("prefixes of <=%s symbolic bytes, buffers of k ASCII bytes (%s) + 2 symbolic bytes + 0..2 ASCII bytes; all encoding families of C08's decoder shapes"
+                         % (("1-2", "k in 0..3 and 14..18") if tier == "quick" else ("2", "k in 0..20 and 28..34"))),
+    outside=["buffers longer than the bounds", "for ISO-2022-JP in a non-ASCII state None is accepted without deriving the state independently"],
+    assumptions=ENGINE_ASSUMPTIONS + ["'mid-sequence' is observed from outside: a twin fed the same prefix produces output or an error when the stream is ended"],
+)
+
+
+
+# ----------------------------------------------------------------------------------------------- C11
+def c11_jobs(tier, seed):
+    jl = []
+    q = tier == "quick"
+    rnd = random.Random(seed)
+    API = ("decode", "decode_with_bom_removal", "decode_without_bom_handling", "decode_without_bom_handling_and_without_replacement")
+    if q:
+        encs = ["UTF-8", "windows-1252", "ISO-2022-JP", "UTF-16LE", "Big5", "gb18030", "Shift_JIS", "replacement", "x-user-defined", ENC_NAMES[rnd.choice(SINGLE)]]
+        shapes = [(4, 0), (9, 3), (20, 16), (24, 21), (63, 60), (64, 61), (65, 63), (66, 62)]
+    else:
+        encs = list(ENC_NAMES)
+        shapes = [(l, p) for l in list(range(3, 25)) + [31, 32, 33, 47, 48, 49, 63, 64, 65, 66, 127, 128, 129, 130] for p in sorted(set([0, max(0, l - 3), (l // 2) & ~1, max(0, min(l - 3, 16))]))]
+    for enc in dict.fromkeys(encs):
+        cjk = enc in ("Big5", "EUC-KR", "Shift_JIS", "EUC-JP", "GBK", "gb18030")
+        for api in range(4):
+            for k, (l, p) in enumerate(shapes):
+                if q and (k + api) % 2 and l not in (64, 65):
+                    continue
+                w = 2 if (cjk or (enc == "UTF-8" and p < 3)) else 3
+                jl.append(J("se_h_c11_decode", {0: E[enc], 1: api, 2: l, 3: min(p, l - w), 4: w},
+                            label="%s.%s: %d bytes = ASCII with %d symbolic bytes at %d" % (enc, API[api], l, w, min(p, l - w)), need=[9999], weight=20 + l // 4,
+                            time_budget=900 if q else 3000, **({"mem_gb": 10} if enc in ("gb18030", "GBK") else {})))
+    # the one-shot decoders size their first allocation with next_power_of_two: lengths just below and at powers of two,
+    # window at the start (errors replaced before the first allocation overflows) and at the end
+    for enc in (("UTF-8", "EUC-KR", "windows-1252") if q else ("UTF-8", "EUC-KR", "EUC-JP", "Big5", "windows-1252", "Shift_JIS", "gb18030")):
+        for kk in ((3, 4) if q else (3, 4, 5, 6)):
+            for l in range((1 << kk) - 5, (1 << kk) + 2):
+                for p0 in (0, l - 3):
+                    w = 3 if enc != "UTF-8" else 2 + (p0 > 0)
+                    for api in ((2,) if q else (0, 2, 3)):
+                        jl.append(J("se_h_c11_decode", {0: E[enc], 1: api, 2: l, 3: max(0, min(p0, l - w)), 4: w},
+                                    label="%s.%s: %d bytes (around 2^%d) with %d symbolic bytes at %d" % (enc, API[api], l, kk, w, max(0, min(p0, l - w))), need=[9999], weight=15,
+                                    time_budget=900 if q else 3000))
+    ewins = {"windows-1252": [(0, 0x80, 0x17F)], "UTF-8": [(0, 0x700, 0x8FF), (0x10000, 0, 0xFF)], "UTF-16LE": [(0, 0x400, 0x4FF)], "replacement": [(0, 0x80, 0xFF)],
+             "ISO-2022-JP": [(0, 0, 0x7F), (0, 0x3040, 0x305F), (0, 0xA0, 0xBF)], "Big5": [(0, 0x4E00, 0x4E1F), (0, 0x80, 0x9F)], "gb18030": [(0, 0x4E00, 0x4E0F), (0x10000, 0, 0xF)],
+             "Shift_JIS": [(0, 0x3040, 0x305F)], "EUC-KR": [(0, 0xAC00, 0xAC1F)], "x-user-defined": [(0, 0xF780, 0xF7FF)]}
+    for enc, ws in ewins.items():
+        for (base, lo, hi) in ws:
+            for (k, s) in ([(0, 0), (3, 2), (17, 1), (62, 3), (64, 0)] if q else [(k, s) for k in (0, 1, 3, 15, 16, 17, 31, 62, 63, 64, 65, 127) for s in (0, 2)]):
+                jl.append(J("se_h_c11_encode", {0: E[enc], 2: k, 3: base, 4: lo, 5: hi, 6: s},
+                            label="%s.encode: %d ASCII + one symbolic character U+%04X..U+%04X + %d ASCII" % (enc, k, base + lo, base + hi, s), need=[9999], weight=10,
+                            small_index_fork=64, time_budget=900 if q else 3000))
+    return jl
+
+
+PROPS["C11"] = dict(
+    cfgs=["verif_c11"], level="model_checking", jobs=c11_jobs, need_global=[70, 71, 72, 73],
+    explanation=("Encoding::decode, decode_with_bom_removal, decode_without_bom_handling, decode_without_bom_handling_and_without_replacement and encode are executed symbolically from "
+                 "the whole-program IR (Vec / String growth from liballoc is executed, not modelled) on an ASCII filler of concrete length L with a window of symbolic bytes at position p "
+                 "(encode: one symbolic character), L chosen below, at and above the 64-byte threshold of the validator-driven prefix handling. The result is asserted equal to the "
+                 "streaming converter in the matching BOM mode fed the whole input: same bytes/text, same had_errors, same encoding used; the without-replacement form is None exactly "
+                 "when the streaming decoder reports a malformed sequence; the result is Cow::Borrowed whenever the documentation promises it (after BOM removal: valid UTF-8 for UTF-8, "
+                 "ASCII-only for ASCII-compatible encodings, ASCII-state-only for ISO-2022-JP; any input when encoding to UTF-8), and a borrowed result has the pointer and length of the "
+                 "caller's own bytes (pointer identity is first-class in the executor). z3 decides every branch and assertion."),
+    bounds=lambda tier: ("inputs of L bytes with a 2-3 byte symbolic window at position p: %s; encode: k ASCII + one symbolic character in a window + s ASCII, k in %s; %s"
+                         % (("L in {4, 9, 20, 24, 63, 64, 65, 66}", "{0, 3, 17, 62, 64}", "10 encodings") if tier == "quick" else
+                            ("L in 3..24, 31..33, 47..49, 63..66, 127..130 with up to four window positions each", "{0, 1, 3, 15..17, 31, 62..65, 127}", "all 40 encodings for decode"))),
+    outside=["inputs longer than 130 bytes (the property names 0..4096)", "more than one symbolic window per input", "the simdutf8 path for inputs >= 64 bytes (the crate's scalar validator is forced, "
+             "see the hook)"],
+    assumptions=ENGINE_ASSUMPTIONS + ["the streaming converter fed the whole input in one call with a worst-case-sized sink is the yardstick (C01/C02/C03/C10)"],
 )
